@@ -265,4 +265,10 @@ fn determine_result_transition<F>(event: &SweepEvent<F>, operation: Operation) -
 pub fn possible_intersection<F>(""")]),
     B('order-events-std-sort-full-order', ['C02', 'C15'], [(CE, "    let mut sorted = false;\n    while !sorted {\n        sorted = true;\n        for i in 1..result_events.len() {\n            if result_events[i - 1] < result_events[i] {\n                result_events.swap(i - 1, i);\n                sorted = false;\n            }\n        }\n    }", "    result_events.sort_by(|a, b| b.cmp(a));")]),
     M('order-events-std-sort-ascending', ['C02', 'C15'], [(CE, "    let mut sorted = false;\n    while !sorted {\n        sorted = true;\n        for i in 1..result_events.len() {\n            if result_events[i - 1] < result_events[i] {\n                result_events.swap(i - 1, i);\n                sorted = false;\n            }\n        }\n    }", "    result_events.sort_by(|a, b| a.cmp(b));")], {'C02': 'T-walk-order', 'C15': 'O-consumers'}),
+    # ---- precompute_iteration_order (T-vertex-cycle)
+    M('cycle-last-R-to-first-L', ['C02', 'C04'], [(CE, "                map[r_upto] = l_upto_exclusive - 1;", "                map[r_upto] = l_from;")], {'C02': 'T-vertex-cycle'}),
+    M('cycle-L-chain-upwards', ['C02'], [(CE, "                map[j] = j - 1;", "                map[j] = j + 1;")], {'C02': 'T-vertex-cycle'}),
+    M('cycle-first-L-to-last-R', ['C02', 'C04'], [(CE, "                map[l_from] = r_from;", "                map[l_from] = r_upto_exclusive - 1;")], {'C02': 'T-vertex-cycle'}),
+    M('cycle-R-scan-ignores-kind', ['C02'], [(CE, "        while i < data.len() && is_identical(x_ref, &data[i]) && !is_left(&data[i]) {", "        while i < data.len() && is_identical(x_ref, &data[i]) && !is_left(x_ref) {")], {'C02': 'T-vertex-cycle'}),
+    B('cycle-bind-last-indices', ['C02', 'C04'], [(CE, "            if has_l_events {\n                map[r_upto] = l_upto_exclusive - 1;\n            } else {\n                map[r_upto] = r_from;\n            }", "            map[r_upto] = if has_l_events { l_upto_exclusive - 1 } else { r_from };")]),
 ]
